@@ -4,11 +4,12 @@ KEYSETS = [["a"], ["a", "b"], ["b", "c.x"], ["c.x", "c.y"], [], ["a", "b", "c.x"
 OPT_KINDS = [("add", "raw"), ("add", "args"), ("set", "raw"), ("set", "args"), ("file", "file")]
 
 
-def all_sequences(max_opts, keysets):
+def all_sequences(max_opts, keysets, vals=(1, 2)):
     for n in range(0, max_opts + 1):
         for kinds in itertools.product(OPT_KINDS, repeat=n):
             for ks in itertools.product(keysets, repeat=n):
-                yield [dict(kind=k[0], lk=k[1], keys=list(s)) for k, s in zip(kinds, ks)]
+                for vs in itertools.product(vals, repeat=n):
+                    yield [dict(kind=k[0], lk=k[1], keys=list(s), val=v) for k, s, v in zip(kinds, ks, vs)]
 
 
 def rand_sequence(rng, max_opts):
@@ -16,5 +17,9 @@ def rand_sequence(rng, max_opts):
     out = []
     for _ in range(n):
         k = rng.choice(OPT_KINDS + [("add", "raw"), ("file", "file")])
-        out.append(dict(kind=k[0], lk=k[1], keys=list(rng.choice(KEYSETS))))
+        out.append(dict(kind=k[0], lk=k[1], keys=list(rng.choice(KEYSETS)), val=rng.randint(1, 3)))
+    if len(out) >= 3 and rng.random() < 0.5:          # the very same document twice, with other sources in between
+        i = rng.randrange(0, len(out) - 2)
+        j = rng.randrange(i + 2, len(out))
+        out[j] = dict(out[j], keys=list(out[i]["keys"]), val=out[i]["val"], lk=out[j]["lk"])
     return out
